@@ -42,7 +42,10 @@ CLAIMED["C01"] = dict(
          "successful AEAD open of bytes 20.. with nonce = bytes 0..11 and AAD = bytes 0..19 (no packet type bypasses it); without a "
          "key only the single expected hello with valid CRC is processed. Model tied to connection.py by two-party differential "
          "histories with an attacker stream (forged plaintext of every type/count, bit flips, truncations, extensions, header "
-         "rewrites, other-key ciphertext, random bytes) towards keyed and unkeyed endpoints; monitor compares full state snapshots.",
+         "rewrites, other-key ciphertext, random bytes) towards keyed and unkeyed endpoints; monitor compares full state snapshots. At the "
+         "server loop (C01_loop_halfopen_untouched): a datagram that does not decode under the key of its address's half-open connection - "
+         "a complete CRC-valid hello forged in the name of a connecting client included - does not replace, re-key or alter that connection; "
+         "tied to server.py by recorded runs of the real loop with such forgeries (monitor halfopen-connection-replaced).",
     note=TRUST + "INT-CTXT of AES-GCM assumed outside Lean; the driver uses a toy MAC as AEAD instance (theorems quantify over any AEAD); "
          "history-level non-interference is the Lean theorem C01_history_noninterference (erasing any set of unauthentic arrivals from any history "
          "changes only stats.dropped), resting on the proved commutation of every model operation with the dropped counter.",
